@@ -277,6 +277,16 @@ func runC10(c *rt.Ctx) {
 			}
 		}
 	})
+	{ // call histories: valid numerals colliding under weak checksums, parsed back to back
+		var texts []string
+		for n := uint64(1); n <= 60000; n++ {
+			for _, set := range []int{0, 63, 64, 127, 9} {
+				_, rf := romanFlags(set)
+				texts = append(texts, ref.RomanFormat(n, rf))
+			}
+		}
+		collisionHistories(c, texts, 300, 100, func(w *rt.W, t string) { c10Case(w, t, 0) })
+	}
 	c.Require("accepted-variant-0", 1000)
 	c.Require("accepted-variant-1", 1000)
 	c.Require("accepted-variant-2", 1000)
